@@ -39,6 +39,17 @@ theorem collectLoop_not_refused (sb : Option SetupBy) (force : Bool) (top : Str 
         intro h; injection h with h; subst h; exact hrec q seen hq
       | ok r => obtain ⟨sub, sn⟩ := r; simpa using ih _ _
 
+theorem directDeps_error {db : Db} {p : Prod} {expand : Bool} {e : Err} (h : directDeps db p expand = .error e) :
+    e = .tableError ∨ e = .outOfFuel := by
+  unfold directDeps at h
+  split at h
+  · split at h
+    · injection h with h; exact Or.inl h.symm
+    · split at h
+      · injection h with h; exact Or.inr h.symm
+      · simp at h
+  · simp at h
+
 theorem collect_not_refused (db : Db) (sb : Option SetupBy) (force : Bool) (dn : Option Str) (top : Str × Str)
     (hoff : sb = none ∨ force = true) :
     ∀ f name ver recursive seen, collect db sb force dn top f name ver recursive seen ≠ .error .refused := by
@@ -54,7 +65,8 @@ theorem collect_not_refused (db : Db) (sb : Option SetupBy) (force : Bool) (dn :
       · simp
       · simp only
         split
-        · simp
+        · rename_i e he
+          rcases directDeps_error he with rfl | rfl <;> simp
         · exact collectLoop_not_refused sb force top recursive _ hoff (fun q sn => ih _ _ _ _) _ _ _
 
 /-- every product the loop returns passed the in-use test (when the test is on and force is off) -/
@@ -189,13 +201,15 @@ theorem collectLoop_contains (sb : Option SetupBy) (force : Bool) (top : Str × 
         · exact h2 x hx
 
 theorem mem_directDeps_self {db : Db} {p : Prod} {expand : Bool} {deps : List Prod}
-    (h : directDeps db p expand = some deps) : p ∈ deps := by
+    (h : directDeps db p expand = .ok deps) : p ∈ deps := by
   unfold directDeps at h
   split at h
-  · cases hx : depsOf db db.fuel [] p false 0 St.empty with
-    | none => simp [hx] at h
-    | some r => simp [hx] at h; rw [← h]; simp
-  · simp at h; rw [← h]; simp
+  · split at h
+    · simp at h
+    · split at h
+      · simp at h
+      · simp only [Except.ok.injEq] at h; rw [← h]; simp
+  · simp only [Except.ok.injEq] at h; rw [← h]; simp
 
 /-- a successful `_remove` of a product other than the default product collects that product -/
 theorem collect_contains_self (db : Db) (sb : Option SetupBy) (force : Bool) (dn : Option Str) (top : Str × Str)
